@@ -164,6 +164,7 @@ func vfRunOne(path string) string {
 	vfChoicePos = 0
 	vfObsLog = nil
 	vfEvents = nil
+	vfFSDir = "" // a fresh temporary directory per replay
 	res := "ok"
 	func() {
 		defer func() {
@@ -246,3 +247,7 @@ func vfParallel(f1, f2 func()) {
 }
 
 func vfRaceFree() bool { return true }
+
+// vfNativeRepeats: how often a native run repeats a block whose outcome depends on Go's randomised map
+// iteration order (the symbolic run explores all orders in one pass and gets 1).
+func vfNativeRepeats() int { return 64 }
